@@ -65,7 +65,7 @@ class C20(Prop):
             "(three distances + an asymmetric probe function); non-trivial = rankings differ")
     assumptions = ["IEEE-754 division is correctly rounded (float == num/den computed by CPython)"]
     trusted_base = ["numpy float64 division; tuple.index semantics"]
-    budget = {"quick": 600, "thorough": 6000}
+    budget = {"quick": 600, "thorough": 40000}
     anchors = [("preflibtools.properties.distances", n) for n in
                ("distance_matrix", "kendall_tau_distance", "spearman_footrule_distance", "sertel_distance")] + \
               [("preflibtools.instances.preflibinstance.ordinal", "OrdinalInstance.full_profile")]
